@@ -519,3 +519,47 @@ def run(ctx):  # noqa: F811
     _run_core(ctx)
     if not os.environ.get("VERIF_REPLAY"):
         run_consumers(ctx)
+
+
+# ---- trajectories and simulation variables through aliases ----------------------------------------------------
+def trajectory_and_simulation_aliases(ctx):
+    """(a) optimisation accessors (state_at, der_at, states_in, integral) through a negated and a plain alias,
+    windows with ends on and off the grid and inside the history, stored history untouched (shared with C15);
+    (b) simulation: set_var / get_var through aliases of states, algebraic variables and inputs"""
+    from concurrent.futures import ProcessPoolExecutor
+    from . import c09, c15
+    c15.alias_checks(ctx)
+    rng = ctx.rng
+    specs = []
+    k = 0
+    while len(specs) < ctx.n(5, 100):
+        k += 1
+        m = c09.gen_model(rng, 3000 + k)
+        if m["aliases"]:
+            specs.append(m)
+    with ProcessPoolExecutor(max_workers=8) as ex:
+        results = list(ex.map(c09.safe_run, specs))
+    for spec, res in zip(specs, results):
+        ctx.case_done(core.fingerprint(["sim-alias", [a[1][0] + str(a[2]) for a in spec["aliases"]]]), True)
+        ctx.count("simulation_alias_models")
+        if "error" in res or res.get("raised"):
+            ctx.count("simulation_alias_unsolved")
+            continue
+        for a, tgt, sign in spec["aliases"]:
+            for o in res["obs"]:
+                if abs(o[a] - sign * o[tgt]) > 1e-7 * (1 + abs(o[tgt])):
+                    ctx.violation("simalias/read", {"spec": spec, "alias": a, "observation": o}, what="simulation: alias %s does not read %+d * %s" % (a, sign, tgt))
+                    break
+        for nm, want, got in res["setget"]:
+            if abs(want - got) > 1e-9:
+                ctx.violation("simalias/write", {"spec": spec, "variable": nm, "expected": want, "got": got},
+                              what="simulation: %s reads %s, expected %s" % (nm, got, want))
+
+
+_run_core2 = run
+
+
+def run(ctx):  # noqa: F811
+    _run_core2(ctx)
+    if not os.environ.get("VERIF_REPLAY"):
+        trajectory_and_simulation_aliases(ctx)
